@@ -138,6 +138,7 @@ def stream_sql_and_e2e(ck, model_ok, tm=None):
     # model: SQL text per dialect, the engine's reading of it, the excluded corner, eval_doc on three rows
     probe = [rows[i] for i in (ck.rng.randrange(len(rows)), ck.rng.randrange(len(rows)), 444)]
     model = [None] * len(cases)
+    model_rq = [None] * len(cases)
     if model_ok:
         exprs = []
         envs = "[" + "; ".join("[%s]" % "; ".join(G.coq_val(v) for v in env) for env in probe) + "]"
@@ -153,8 +154,10 @@ def stream_sql_and_e2e(ck, model_ok, tm=None):
                 raw[k] = raw0[pos]
             # ( [ (text, reading, (triples, pairs)) ; (...) ], corner, [shipped] )  ->  the layout used below
             model = []
+            model_rq = []
             for x in raw:
-                per, corner, shipped = x
+                per, corner, shipped, rqm = x
+                model_rq.append(rqm)
                 if not per:          # a let whose definition is not inlinable in the model
                     model.append(None)
                     continue
@@ -162,6 +165,7 @@ def stream_sql_and_e2e(ck, model_ok, tm=None):
         except (RuntimeError, ValueError, TypeError) as ex:
             ck.coverage["sql_model_error"] = str(ex)[-600:]
             model = [None] * len(cases)
+            model_rq = [None] * len(cases)
             ck.violation("the SQL emission model could not be evaluated: the text correspondence did not run",
                          {"kind": "model-evaluation-failed", "error": str(ex)[-600:]}, no_input=True)
     tm['coq_eval_models'] = round(time.time() - _t, 1)
@@ -170,12 +174,49 @@ def stream_sql_and_e2e(ck, model_ok, tm=None):
         _t = time.time()
         plain = [k for k in range(len(cases)) if k not in lets]
         comp = [None] * len(cases)
-        for k, r in zip(plain, M.compile_batch([srcs[k] for k in plain], dialect)):
+        rq_plain = [None] * len(plain)
+        for k, r in zip(plain, M.compile_batch([srcs[k] for k in plain], dialect, rq=rq_plain)):
             comp[k] = r
         lk = sorted(lets)
-        for k, r in zip(lk, M.compile_programs(["from t | derive {d = %s} | select {v0 = %s}" % (G.prql(lets[k]), G.prql(cases[k][1])) for k in lk], dialect)):
+        rq_let = [None] * len(lk)
+        for k, r in zip(lk, M.compile_programs(["from t | derive {d = %s} | select {v0 = %s}" % (G.prql(lets[k]), G.prql(cases[k][1])) for k in lk], dialect, rq=rq_let)):
             comp[k] = r
         tm['compile_' + dialect] = round(time.time() - _t, 1)
+        # --- RQ correspondence (hook verif:preprocess, pass "normalize"): what the resolver + lowerer hand to the SQL
+        # back end is `resolve e` = seval (expand e) of the model, and the Normalizer's output is `normalize` of it
+        impl_rq = {}
+        for k, r in zip(plain, rq_plain):
+            impl_rq[k] = None if r is None else (M.HOOK_MISSING if r == M.HOOK_MISSING else [r])
+        for k, r in zip(lk, rq_let):
+            impl_rq[k] = None if r is None else (M.HOOK_MISSING if (r and r[0] == M.HOOK_MISSING) else r)
+        hook_missing = 0
+        for k, (label, t, ridx) in enumerate(cases):
+            if comp[k][0] == "ERR" or model_rq[k] is None:
+                continue
+            ir = impl_rq.get(k)
+            if ir == M.HOOK_MISSING:
+                hook_missing += 1
+                continue
+            mr = model_rq[k]
+            pairs = [mr] if k not in lets else [(mr[0], mr[1]), mr[2]]   # Coq prints ((a, b), (c, d)) as (a, b, (c, d))
+            if ir is None or len(ir) != len(pairs) or any(x is None for x in ir):
+                ck.stat("rq", dialect + ":outside-the-hook-view")
+                continue
+            for which, (mp, ip) in enumerate(zip(pairs, ir)):
+                m_in, m_out = M.codes_text(("Some", mp[0])), M.codes_text(("Some", mp[1]))
+                ck.count("rq", "%s|%d|%s" % (dialect, which, srcs[k]), nontrivial=True)
+                ck.stat("rq", "normalizer:" + ("swapped" if ip[0] != ip[1] else "identity"))
+                if ip[0] != m_in:
+                    ck.disagreement("RQ handed to the SQL back end differs for %r: model (seval (expand e)) %s, implementation %s" % (srcs[k], m_in, ip[0]),
+                                    {"stream": "rq", "pass": "resolve", "dialect": dialect, "src": srcs[k], "model": m_in, "impl": ip[0]}, classify_text)
+                elif ip[1] != m_out:
+                    ck.disagreement("Normalizer output differs for %r: model (normalize) %s, implementation %s (input %s)" % (srcs[k], m_out, ip[1], ip[0]),
+                                    {"stream": "rq", "pass": "normalize", "dialect": dialect, "src": srcs[k], "input": ip[0], "model": m_out, "impl": ip[1]}, classify_text)
+                elif k % 211 == 0:
+                    ck.sample({"stream": "rq", "src": srcs[k], "before": ip[0], "after": ip[1]})
+        if hook_missing:
+            ck.violation("the verif:preprocess hook (pass normalize) is not in this tree: %d compiled programs produced no hook line -- "
+                         "the RQ correspondence did not run (fail closed)" % hook_missing, {"kind": "hook-missing", "hook": "verif:preprocess", "programs": hook_missing}, no_input=True)
         # --- text correspondence
         for k, (label, t, ridx) in enumerate(cases):
             got = comp[k]
